@@ -45,6 +45,19 @@
 //! directed pieces (chords pressed together, leader + sequence, virtual keys by name, dynamic-macro
 //! record / replay, staggered accelerated mouse keys) so that a table or option that survives the
 //! reload shows up in the comparison with the fresh instance.
+//!
+//! OS key repeats: the per-layer table that decides which OS key a `KeyValue::Repeat` input event is
+//! forwarded as (`key_outputs`, one entry per layer) is state outside the layout as well, and
+//! press / release histories never read it. Continuations therefore contain Repeat events for keys
+//! that are physically held (directed pieces: a key held and repeated, with or without the layer
+//! key `j` = `(layer-while-held <non-first layer>)` held before / after it, a second key, a repeat
+//! after the release; and repeats inserted into the waits of every other piece), identically on the
+//! reloaded and on the fresh instance; the files of a case have 2-4 layers each, independently, so a
+//! reload also goes to a file with more (or fewer) layers than the configuration before it and
+//! repeats arrive while a layer is held whose index the previous configuration did not have. A
+//! forwarded repeat that only one side writes (or writes for another key) is the class
+//! `differs-from-fresh-instance:forwarded-os-repeat`; a panic of the real code is reported by the
+//! runner's crash oracle (`panic:<file>:<message>`).
 
 use super::c07::dcommon::{drain_into, kind_class};
 use crate::core::rng::Rng;
@@ -170,6 +183,9 @@ impl Rd {
 
 const ACT_KEYS: &[&str] = &["a", "s", "d", "f", "g", "h"];
 const RELOAD_KEYS: &[&str] = &["1", "2", "3", "4", "5"];
+/// physical key that every file maps (on its first layer) to `(layer-while-held <a non-first layer>)`;
+/// it is only pressed by the directed OS-repeat pieces of a continuation
+const LAYER_KEY: &str = "j";
 const LAYER_NAMES: &[&str] = &["base", "main", "alpha", "first", "qwerty", "nav", "sym", "fn", "other", "two"];
 const OLD_LETTERS: &[&str] = &["q", "w", "e", "r", "t", "y", "u", "i", "o", "p", "k", "l"];
 const NEW_LETTERS: &[&str] = &["z", "x", "c", "v", "b", "n", "m", "6", "7", "8", "k", "l"];
@@ -205,9 +221,17 @@ struct CfgSpec {
     /// defseq entries: (virtual key name, key list)
     seqs: Vec<(String, String)>,
     zippy: Option<ZippySpec>,
+    /// layers after the second one: (name, actions of ACT_KEYS); 0-2 of them, so the number of
+    /// layers (= the length of the per-layer key-repeat table) differs between the files of a case
+    extra: Vec<(String, Vec<String>)>,
+    /// action of LAYER_KEY on the first layer (transparent on the others)
+    lkey: String,
 }
 
 impl CfgSpec {
+    fn n_layers(&self) -> usize {
+        2 + self.extra.len()
+    }
     fn opt(&self, name: &str) -> String {
         self.opts.iter().find(|o| o.0 == name).map(|o| o.1.clone()).unwrap_or_else(|| "default".into())
     }
@@ -243,14 +267,17 @@ fn cfg_text(s: &CfgSpec, row: &str) -> String {
         t.push_str(&format!(" {n} {v}"));
     }
     t.push_str(")\n");
-    t.push_str(&format!("(defsrc {} {})\n", ACT_KEYS.join(" "), RELOAD_KEYS.join(" ")));
+    t.push_str(&format!("(defsrc {} {LAYER_KEY} {})\n", ACT_KEYS.join(" "), RELOAD_KEYS.join(" ")));
     t.push_str("(defvirtualkeys");
     for (n, a) in &s.vkeys {
         t.push_str(&format!(" {n} {a}"));
     }
     t.push_str(")\n");
-    t.push_str(&format!("(deflayer {}\n  {}\n  {row})\n", s.l0, s.acts0.join("\n  ")));
-    t.push_str(&format!("(deflayer {}\n  {}\n  {row})\n", s.l1, s.acts1.join("\n  ")));
+    t.push_str(&format!("(deflayer {}\n  {}\n  {}\n  {row})\n", s.l0, s.acts0.join("\n  "), s.lkey));
+    t.push_str(&format!("(deflayer {}\n  {}\n  _\n  {row})\n", s.l1, s.acts1.join("\n  ")));
+    for (name, acts) in &s.extra {
+        t.push_str(&format!("(deflayer {name}\n  {}\n  _\n  {row})\n", acts.join("\n  ")));
+    }
     if let Some((a, b)) = &s.overrides {
         t.push_str(&format!("(defoverrides ({a}) ({b}))\n"));
     }
@@ -361,7 +388,34 @@ fn rand_spec(rng: &mut Rng, letters: &[&str], avoid_l0: Option<&str>) -> CfgSpec
     } else {
         None
     };
-    CfgSpec { l0, l1, acts0, acts1, opts, overrides, vkeys, seqs: vec![], zippy: None }
+    let lkey = format!("(layer-while-held {l1})");
+    CfgSpec { l0, l1, acts0, acts1, opts, overrides, vkeys, seqs: vec![], zippy: None, extra: vec![], lkey }
+}
+
+/// Give a configuration 0-2 layers after the second one and decide which non-first layer LAYER_KEY
+/// holds (the last one half of the time: that is the layer index a file with fewer layers does not
+/// have). Draws from the stream of the OS-repeat dimension only.
+fn add_layers(xr: &mut Rng, s: &mut CfgSpec, letters: &[&str], weights: [u64; 3]) {
+    let total: u64 = weights.iter().sum();
+    let r = xr.below(total.max(1));
+    let n = if r < weights[0] {
+        0
+    } else if r < weights[0] + weights[1] {
+        1
+    } else {
+        2
+    };
+    let names: Vec<&str> = LAYER_NAMES.iter().copied().filter(|x| *x != s.l0 && *x != s.l1).collect();
+    let picked = xr.subset(names.len(), n);
+    for i in picked {
+        let l0 = s.l0.clone();
+        let acts: Vec<String> = (0..ACT_KEYS.len()).map(|_| if xr.chance(1, 5) { "_".to_string() } else { rand_action(xr, letters, &l0) }).collect();
+        s.extra.push((names[i].to_string(), acts));
+    }
+    let mut reach: Vec<String> = vec![s.l1.clone()];
+    reach.extend(s.extra.iter().map(|e| e.0.clone()));
+    let tgt = if xr.coin() { reach[reach.len() - 1].clone() } else { xr.pick(&reach).clone() };
+    s.lkey = format!("(layer-while-held {tgt})");
 }
 
 // --- features whose state lives outside the replaced layout: zippychord (process-global),
@@ -838,6 +892,9 @@ fn make_plan_inner(ctx: &Ctx, idx: u64, sys: usize, session: bool) -> Plan {
     let mut rng = Rng::for_case(ctx.seed, "C15", "case", idx);
     // what was added to the single-episode cases later draws from a stream of its own
     let mut srng = Rng::for_case(ctx.seed, "C15", "session", idx);
+    // ... and so does the OS-repeat dimension (number of layers per file, the layer LAYER_KEY holds,
+    // the Repeat events of the continuations)
+    let mut xr = Rng::for_case(ctx.seed, "C15", "repeat", idx);
     let loop_order = if session { srng.chance(3, 4) } else { srng.chance(1, 3) };
     // systematic part: scenario x request kind x outcome cycle with the index, details are random
     let scenario = SCENARIOS[sys % SCENARIOS.len()];
@@ -1031,6 +1088,11 @@ fn make_plan_inner(ctx: &Ctx, idx: u64, sys: usize, session: bool) -> Plan {
     }
     let fo = Feat { pool: zmode != "none" || smode != "none", zippy: matches!(zmode, "old-only" | "both" | "both-same-dict-file"), seq: matches!(smode, "old-only" | "both"), dm: false, mouse: false };
     decorate_old(&mut rng, &mut old, &specs[target], &metas[target], fo);
+    // number of layers: the old configuration mostly has two, the files mostly more
+    add_layers(&mut xr, &mut old, OLD_LETTERS, [2, 1, 1]);
+    for sp in specs.iter_mut() {
+        add_layers(&mut xr, sp, NEW_LETTERS, [2, 3, 3]);
+    }
     let mut contents = vec![Content::Valid; nfiles];
     if !success {
         // every file a request of this case can land on is broken in the same way
@@ -1062,14 +1124,18 @@ fn make_plan_inner(ctx: &Ctx, idx: u64, sys: usize, session: bool) -> Plan {
             post.push(Ev::T(g));
         }
     }
-    let (cont, cinfo) = build_cont(&mut rng, &metas[target], true);
+    let (mut cont, mut cinfo) = build_cont(&mut rng, &metas[target], true);
+    add_repeats(&mut xr, &mut cont, &mut cinfo, &metas[target], true);
     let mut eps = vec![Episode { scenario, pre, reqs, idx_after, post, cont, cinfo, typing: "mixed" }];
     if session {
         let more = 1 + srng.usize(2);
         let mut cur = target;
         for e in 0..more {
             // what is typed between the previous reload and this request
-            let (typing, cont, cinfo) = between_typing(&mut srng, &metas[cur]);
+            let (typing, mut cont, mut cinfo) = between_typing(&mut srng, &metas[cur]);
+            if typing != "none" {
+                add_repeats(&mut xr, &mut cont, &mut cinfo, &metas[cur], typing == "mixed");
+            }
             if let Some(prev) = eps.last_mut() {
                 prev.typing = typing;
                 prev.cont = cont;
@@ -1079,7 +1145,8 @@ fn make_plan_inner(ctx: &Ctx, idx: u64, sys: usize, session: bool) -> Plan {
             cur = step_idx(ep.reqs[0].kind, cur, nfiles, num_arg, file_arg);
             ep.idx_after = vec![cur];
             if e + 1 == more {
-                let (c, ci) = build_cont(&mut srng, &metas[cur], true);
+                let (mut c, mut ci) = build_cont(&mut srng, &metas[cur], true);
+                add_repeats(&mut xr, &mut c, &mut ci, &metas[cur], true);
                 ep.cont = c;
                 ep.cinfo = ci;
                 ep.typing = "mixed";
@@ -1206,6 +1273,132 @@ struct ContInfo {
     dm_probes: u64,
     fk_ops: u64,
     mouse_holds: u64,
+    /// directed OS-repeat pieces (key held, Repeat events for it, with or without LAYER_KEY held)
+    repeat_pieces: u64,
+    /// Repeat events inserted into the waits of the other pieces for a key that is held then
+    sprinkled_repeats: u64,
+}
+
+/// A directed OS-repeat piece: one or two keys are held and `KeyValue::Repeat` events arrive for
+/// them, as the OS sends them for a held key; half of the time LAYER_KEY (layer-while-held of a
+/// non-first layer of the file) is held as well, pressed before or after the key, sometimes
+/// released before it. Everything is released at the end.
+fn repeat_piece(xr: &mut Rng, m: &Meta) -> Vec<Ev> {
+    let keys: Vec<u16> = ACT_KEYS.iter().map(|k| osc(k)).collect();
+    let lk = osc(LAYER_KEY);
+    let mut c: Vec<Ev> = vec![];
+    let slot = |xr: &mut Rng| if !m.plain.is_empty() && xr.chance(2, 3) { *xr.pick(&m.plain) } else { xr.usize(ACT_KEYS.len()) };
+    let k1 = keys[slot(xr)];
+    // 0: no layer key, 1: layer key first, 2: layer key after the key
+    let layer_mode = *xr.pick(&[0usize, 1, 1, 2]);
+    let mut layer_down = false;
+    if layer_mode == 1 {
+        c.extend([Ev::P(lk), Ev::T(*xr.pick(&[1u32, 5, 30]))]);
+        layer_down = true;
+    }
+    c.extend([Ev::P(k1), Ev::T(*xr.pick(&[1u32, 5, 30, 250]))]);
+    if layer_mode == 2 {
+        c.extend([Ev::P(lk), Ev::T(*xr.pick(&[1u32, 5, 30]))]);
+        layer_down = true;
+    }
+    for _ in 0..1 + xr.usize(4) {
+        c.extend([Ev::Rep(k1), Ev::T(*xr.pick(&[1u32, 2, 30, 33]))]);
+    }
+    if xr.chance(1, 3) {
+        // a second key: the OS repeats the key pressed last; a repeat of the first one is a stray
+        let k2 = keys[slot(xr)];
+        if k2 != k1 {
+            c.extend([Ev::P(k2), Ev::T(*xr.pick(&[2u32, 30, 250]))]);
+            for _ in 0..1 + xr.usize(3) {
+                c.extend([Ev::Rep(k2), Ev::T(*xr.pick(&[1u32, 30]))]);
+            }
+            if xr.chance(1, 3) {
+                c.extend([Ev::Rep(k1), Ev::T(2)]);
+            }
+            c.extend([Ev::R(k2), Ev::T(*xr.pick(&[1u32, 10]))]);
+            if xr.coin() {
+                c.extend([Ev::Rep(k1), Ev::T(*xr.pick(&[1u32, 30]))]);
+            }
+        }
+    }
+    if layer_down && xr.chance(1, 4) {
+        // the layer key goes up first, the key keeps repeating
+        c.extend([Ev::R(lk), Ev::T(*xr.pick(&[1u32, 20])), Ev::Rep(k1), Ev::T(*xr.pick(&[1u32, 30]))]);
+        layer_down = false;
+    }
+    c.extend([Ev::R(k1), Ev::T(*xr.pick(&[1u32, 5, 40]))]);
+    if xr.chance(1, 5) {
+        // a Repeat that arrives after the release
+        c.extend([Ev::Rep(k1), Ev::T(3)]);
+    }
+    if layer_down {
+        c.extend([Ev::R(lk), Ev::T(*xr.pick(&[1u32, 10]))]);
+    }
+    c.push(Ev::T(*xr.pick(&[5u32, 40, 300])));
+    c
+}
+
+/// Add OS key-repeat events to a continuation: a directed piece (see `repeat_piece`) at its start
+/// or end in 3 of 5 continuations that may have one, and, in 2 of 3, Repeat events inside the waits
+/// of the other pieces for a key that is physically held at that moment (mostly the one pressed
+/// last, which is the one an OS repeats).
+fn add_repeats(xr: &mut Rng, cont: &mut Vec<Ev>, info: &mut ContInfo, m: &Meta, directed: bool) {
+    if xr.chance(2, 3) {
+        let mut out: Vec<Ev> = Vec::with_capacity(cont.len() + 8);
+        let mut down: Vec<u16> = vec![];
+        for e in cont.iter() {
+            match e {
+                Ev::P(k) => {
+                    down.retain(|x| x != k);
+                    down.push(*k);
+                    out.push(e.clone());
+                }
+                Ev::R(k) => {
+                    down.retain(|x| x != k);
+                    out.push(e.clone());
+                }
+                Ev::T(n) if *n >= 2 && !down.is_empty() && xr.chance(1, 4) => {
+                    // 1-3 repeats inside this wait
+                    let reps = (1 + xr.usize(3)).min(*n as usize - 1);
+                    let mut left = *n;
+                    for i in 0..reps {
+                        let room = left - (reps - i) as u32;
+                        let a = 1 + xr.usize(room.min(40) as usize) as u32;
+                        let k = if xr.chance(4, 5) { down[down.len() - 1] } else { *xr.pick(&down) };
+                        out.extend([Ev::T(a), Ev::Rep(k)]);
+                        left -= a;
+                        info.sprinkled_repeats += 1;
+                    }
+                    if left > 0 {
+                        out.push(Ev::T(left));
+                    }
+                }
+                _ => out.push(e.clone()),
+            }
+        }
+        *cont = out;
+    }
+    if directed && xr.chance(3, 5) {
+        let piece = repeat_piece(xr, m);
+        info.repeat_pieces += 1;
+        if xr.coin() {
+            // first thing after the idle point; a chord that follows is typed after a pause that
+            // surely re-enables zippychord (ContInfo::chord_bursts)
+            let mut v = piece;
+            if !info.chord_bursts.is_empty() {
+                v.push(Ev::T(1300));
+            }
+            v.extend(cont.iter().cloned());
+            *cont = v;
+        } else {
+            // before the final wait
+            let tail = cont.pop();
+            cont.extend(piece);
+            if let Some(t) = tail {
+                cont.push(t);
+            }
+        }
+    }
 }
 
 /// Continuation typed from the idle point on: random typing interleaved with directed pieces that
@@ -1628,19 +1821,59 @@ fn run_reload(p: &Plan, paths: &Paths, noop: bool) -> Result<Result<Obs, String>
     Ok(Ok(Obs { trace: std::mem::take(&mut rd.sim.trace), notes: rd.notes, eps, requested_at_end, not_quiescent_before_later_request }))
 }
 
+/// One `KeyValue::Repeat` input event as the fresh instance saw it.
+struct RepSeen {
+    code: u16,
+    /// layer that was active when the event arrived
+    layer: usize,
+    /// kanata wrote a repeat to the OS for it
+    forwarded: bool,
+}
+
+struct FreshRun {
+    trace: Vec<Out>,
+    notes: Vec<(u64, Note)>,
+    t0: u64,
+    reps: Vec<RepSeen>,
+}
+
 /// Fresh instance of `file` (Kanata::new, as at start-up) running the continuation `cont`.
-fn run_fresh(p: &Plan, file: &Path, cont: &[Ev]) -> Result<Result<(Vec<Out>, Vec<(u64, Note)>, u64), String>, Jitter> {
+fn run_fresh(p: &Plan, file: &Path, cont: &[Ev]) -> Result<Result<FreshRun, String>, Jitter> {
     let mut rd = match Rd::new(vec![file.to_path_buf()], p.loop_order) {
         Ok(r) => r,
         Err(e) => return Ok(Err(format!("fresh instance rejected the new file: {e}"))),
     };
     rd.run(&[Ev::T(50)]);
     let t0 = rd.sim.now;
-    rd.run(cont);
+    let mut reps = vec![];
+    for e in cont {
+        if let Ev::Rep(c) = e {
+            let layer = rd.sim.k.layout.b().current_layer();
+            let n0 = rd.sim.trace.len();
+            rd.apply(e);
+            let forwarded = rd.sim.trace[n0.min(rd.sim.trace.len())..].iter().any(|o| o.kind == OutKind::Repeat);
+            reps.push(RepSeen { code: *c, layer, forwarded });
+        } else {
+            rd.apply(e);
+        }
+    }
     if rd.jitter {
         return Err(Jitter);
     }
-    Ok(Ok((std::mem::take(&mut rd.sim.trace), rd.notes, t0)))
+    Ok(Ok(FreshRun { trace: std::mem::take(&mut rd.sim.trace), notes: rd.notes, t0, reps }))
+}
+
+/// The first pair of outputs in which two traces differ (redundant releases dropped, as `first_diff`).
+fn first_diff_pair(a: &[Out], b: &[Out]) -> Option<(Option<Out>, Option<Out>)> {
+    let fa: Vec<&Out> = a.iter().filter(|o| !o.redundant).collect();
+    let fb: Vec<&Out> = b.iter().filter(|o| !o.redundant).collect();
+    for i in 0..fa.len().max(fb.len()) {
+        match (fa.get(i), fb.get(i)) {
+            (Some(x), Some(y)) if x.at == y.at && x.kind == y.kind && x.name == y.name && x.in_tick == y.in_tick => {}
+            (x, y) => return Some((x.map(|o| (*o).clone()), y.map(|o| (*o).clone()))),
+        }
+    }
+    None
 }
 
 fn rel(trace: &[Out], t0: u64, t1: u64) -> Vec<Out> {
@@ -1806,6 +2039,7 @@ fn judge_plan(p: &Plan, paths: &Paths, out: &mut CaseOut, desc: &Value, verbose:
             }
         };
         out.count("outputs_compared_with_no_request_twin", a.trace.len() as u64);
+        out.count("failed_reload:forwarded_os_repeats_compared_with_no_request_twin", a0.t_idle.map(|t| a.trace.iter().filter(|o| o.at >= t && o.kind == OutKind::Repeat).count() as u64).unwrap_or(0));
         if a.requested_at_end {
             out.violate("failed-reload:request-never-decided", "the reload request is still pending at the end of the history", witness(json!({"settle": format!("{:?}", a0.settle_problem)}), json!("request decided once keys are up")));
         }
@@ -2087,7 +2321,7 @@ fn judge_episode(p: &Plan, paths: &Paths, a: &Obs, ei: usize, active: Option<usi
         }
     };
     let ra = rel(&a.trace, t_idle, eo.t_end);
-    let rf = rel(&f.0, f.2, u64::MAX);
+    let rf = rel(&f.trace, f.t0, u64::MAX);
     out.count("continuation_outputs_compared_with_fresh", rf.len() as u64);
     if !rf.is_empty() {
         out.inc("continuations_with_output");
@@ -2164,6 +2398,57 @@ fn judge_episode(p: &Plan, paths: &Paths, a: &Obs, ei: usize, active: Option<usi
                 out.inc("virtual_key_operated_after_reload_that_changed_the_virtual_keys");
             }
         }
+        // OS key repeats of the continuation, as the fresh instance saw them, against what the
+        // configuration before the reload had for the same physical key / layer index
+        {
+            let act_codes: Vec<u16> = ACT_KEYS.iter().map(|k| osc(k)).collect();
+            let layer_acts = |s: &CfgSpec, layer: usize, slot: usize| -> Option<String> {
+                match layer {
+                    0 => s.acts0.get(slot).cloned(),
+                    1 => s.acts1.get(slot).cloned(),
+                    n => s.extra.get(n - 2).and_then(|l| l.1.get(slot).cloned()),
+                }
+            };
+            out.count("continuation:directed_os_repeat_pieces", ep.cinfo.repeat_pieces);
+            out.count("continuation:os_repeats_inserted_into_other_pieces", ep.cinfo.sprinkled_repeats);
+            out.count("os_repeat_events_in_continuations", f.reps.len() as u64);
+            let mut any_fwd = false;
+            for r in &f.reps {
+                if r.forwarded {
+                    any_fwd = true;
+                    out.inc("os_repeats_forwarded_by_fresh_instance");
+                } else {
+                    out.inc("os_repeats_not_forwarded_by_fresh_instance");
+                }
+                if r.layer != 0 {
+                    out.inc("os_repeats_with_non_first_layer_active");
+                    if r.forwarded {
+                        out.inc("os_repeats_forwarded_with_non_first_layer_active");
+                    }
+                }
+                if r.layer >= before.n_layers() {
+                    out.inc("os_repeats_with_a_layer_active_that_the_previous_configuration_does_not_have");
+                }
+                if let Some(slot) = act_codes.iter().position(|c| *c == r.code) {
+                    let now_act = layer_acts(tgt, r.layer, slot);
+                    let before_act = layer_acts(before, r.layer, slot);
+                    if r.forwarded && now_act != before_act {
+                        out.inc("os_repeats_forwarded_for_key_mapped_differently_before_the_reload");
+                    }
+                }
+            }
+            if any_fwd {
+                out.inc("continuations_with_forwarded_os_repeat");
+                if later {
+                    out.inc("session_later_continuations_with_forwarded_os_repeat");
+                }
+            }
+            out.inc(match tgt.n_layers().cmp(&before.n_layers()) {
+                std::cmp::Ordering::Greater => "reload_into_file_with_more_layers",
+                std::cmp::Ordering::Less => "reload_into_file_with_fewer_layers",
+                std::cmp::Ordering::Equal => "reload_into_file_with_as_many_layers",
+            });
+        }
         out.inc(&format!("sequences_pair:{}->{}", if before.seqs.is_empty() { "none" } else { "defseq" }, if tgt.seqs.is_empty() { "none" } else if tgt.seqs == before.seqs { "same" } else { "defseq" }));
         if before.vkeys.iter().map(|v| &v.0).collect::<Vec<_>>() != tgt.vkeys.iter().map(|v| &v.0).collect::<Vec<_>>() {
             out.inc("reload_changes_virtual_key_order");
@@ -2175,14 +2460,26 @@ fn judge_episode(p: &Plan, paths: &Paths, a: &Obs, ei: usize, active: Option<usi
         }
     }
     if let Some(d) = first_diff(&ra, &rf) {
+        // the first difference is a forwarded OS repeat that only one of the two instances wrote,
+        // or that they wrote for different keys: a class of its own
+        let at_repeat = match first_diff_pair(&ra, &rf) {
+            Some((x, y)) => x.map(|o| o.kind == OutKind::Repeat).unwrap_or(false) || y.map(|o| o.kind == OutKind::Repeat).unwrap_or(false),
+            None => false,
+        };
         out.violate(
-            sg(if eo.stale_override_state { "differs-from-fresh-instance:stale-override-state" } else { "differs-from-fresh-instance" }),
+            sg(if eo.stale_override_state {
+                "differs-from-fresh-instance:stale-override-state"
+            } else if at_repeat {
+                "differs-from-fresh-instance:forwarded-os-repeat"
+            } else {
+                "differs-from-fresh-instance"
+            }),
             format!("from the idle point after the reload (tick {t_idle}) the outputs differ from a freshly started instance of the new file: {d}"),
             witness(json!({"episode": ei, "reloaded_relative_to_idle_point": shorts(&ra), "whole_trace": whole(&a.trace), "notifications": notes_json(&a.notes)}), json!({"fresh_instance": shorts(&rf)})),
         );
     } else {
         let na = rel_notes(&a.notes, t_idle, eo.t_end);
-        let nf = rel_notes(&f.1, f.2, u64::MAX);
+        let nf = rel_notes(&f.notes, f.t0, u64::MAX);
         if na != nf {
             out.violate(
                 sg("notifications-differ-from-fresh-instance"),
@@ -2212,7 +2509,7 @@ impl Check for C15Check {
         out
     }
     fn rule(&self) -> String {
-        "case = (pre-state scenario, reload request kind, outcome) taken systematically from the index: 16 scenarios (idle, key held, pending tap-hold, active one-shot, running macro, held mouse button, held mwheel, held movemouse, caps-word, pending hold-for-duration, layer held, layer switched, unmod key held > 1 s (the 1000-idle-tick fallback), plain key held > 1 s, two keys held, random typing) x 5 request kinds (lrld, lrld-next, lrld-prev, lrld-num, lrld-file) x {valid new file, broken new file} x 6 fault kinds (syntax error, semantic error, missing file, directory, non-UTF-8, valid text naming a malformed zippychord dictionary), over 1-3 real files; every fifth case taps a second request back-to-back. Old and new configurations are random over plain keys, tap-hold, one-shot, macro, mouse button / wheel / movement (plain and accelerated), caps-word, hold-for-duration, layers, chords, multi, tap-dance, unmod, fork, switch with key-timing, overrides. Everything that a reload has to replace OUTSIDE the layout is varied independently between the old configuration and every new file: zippychord (old file with defzippy -> new without, new with another dictionary, new naming the same dictionary file whose content was edited, old without -> new with; dictionaries are real files next to the configuration, contain the chords of the case expressed in the letters the reloaded file types, follow-up chords and own chords; deadline / idle-reactivate-time / smart-space options vary), defseq tables with a leader key (sldr or (sequence t mode)) in old-only / new-only / both (a third of them with sequence-always-on, whose time-out and input mode are the Kanata-level fields), the defvirtualkeys list (2-4 keys, random order = random index behind each name, random actions), dynamic-macro record / play keys (new files only) and the defcfg options sequence-timeout, sequence-input-mode, sequence-backtrack-modcancel, sequence-always-on, movemouse-smooth-diagonals, movemouse-inherit-accel-state, dynamic-macro-max-presses, dynamic-macro-replay-delay-behaviour, override-release-on-activation, concurrent-tap-hold, rapid-event-delay. After the request(s) the held keys are released with random gaps, the run settles, then a continuation of 2-5 pieces is typed: random typing, the chords of the case pressed together (half of the cases start with one, so zippychord is surely enabled), leader + key sequence (some defined as (lsft k1 k2) and typed with lsft held, some broken off), two accelerated movement keys pressed one after the other, record / stop / replay of a dynamic macro, virtual keys pressed / tapped / toggled by name as the TCP server does, movement keys held together, random keys pressed together. Failed reloads are compared, output by output and tick by tick, with a twin run whose reload keys are inert (the dictionary file on disk changes in both); successful ones with a fresh Kanata::new of the new file from the idle point on, plus the deferral / notification / first-layer / nothing-pressed oracles. SESSIONS (the indices above the single-episode cases; 640 quick / 9600 thorough): 2-3 reload episodes on one running instance, all files valid. The first episode is one of the 16 scenarios x 5 request kinds (one request; in 2/5 the reload key itself is held 1050-1450 ticks, so that the held custom action defers the reload until the one-idle-second fallback applies it, in a third of those another key is tapped during the hold; in 1/4 whatever the scenario holds is held 1100 / 1400 ticks after the request, with a key tapped in the middle of that wait when the scenario surely defers the reload). Its continuation is the typing before the next request: nothing, plain letters only (taps and overlapping holds of keys that type a plain letter in the file just installed, i.e. nothing kanata has to wait for), or the mixed continuation described above. Every later episode makes its pre-state on the file the previous one installed (idle, one or two plain-letter keys held, the lsft key held, random typing cut off anywhere), taps a random request kind (a third with the reload key held for more than a second), waits (a fifth for 1100 / 1400 ticks, possibly with a key tapped in the middle), releases what is held with random gaps, settles, and types its own continuation; the last one types the mixed continuation. Every episode is judged on its own: exactly one ConfigFileReload naming the file the request selects relative to the file active by then, not applied with an OS key down unless more than 1000 iterations passed since the last input / output, notification pair, first layer, only releases until the idle point, everything up at the idle point, continuation identical to a fresh instance of the file that episode installed. KEY-EVENT DELIVERY is a dimension of every case: a third of the single-episode cases and three quarters of the sessions deliver every key event as a loop iteration of its own in the loop's order (can_block_update_idle_waiting, handle_input_event, handle_time_ticks), the others queue key events between two iterations. Non-trivial = case in which the request was made on an accepted old configuration; distinct = (outcome, scenario, request kinds, fault kind, number of files, number of reloads applied), for sessions (per episode: scenario, request kind, reload key held > 1 s; kind of typing between).".into()
+        "case = (pre-state scenario, reload request kind, outcome) taken systematically from the index: 16 scenarios (idle, key held, pending tap-hold, active one-shot, running macro, held mouse button, held mwheel, held movemouse, caps-word, pending hold-for-duration, layer held, layer switched, unmod key held > 1 s (the 1000-idle-tick fallback), plain key held > 1 s, two keys held, random typing) x 5 request kinds (lrld, lrld-next, lrld-prev, lrld-num, lrld-file) x {valid new file, broken new file} x 6 fault kinds (syntax error, semantic error, missing file, directory, non-UTF-8, valid text naming a malformed zippychord dictionary), over 1-3 real files; every fifth case taps a second request back-to-back. Old and new configurations are random over plain keys, tap-hold, one-shot, macro, mouse button / wheel / movement (plain and accelerated), caps-word, hold-for-duration, layers, chords, multi, tap-dance, unmod, fork, switch with key-timing, overrides. Everything that a reload has to replace OUTSIDE the layout is varied independently between the old configuration and every new file: zippychord (old file with defzippy -> new without, new with another dictionary, new naming the same dictionary file whose content was edited, old without -> new with; dictionaries are real files next to the configuration, contain the chords of the case expressed in the letters the reloaded file types, follow-up chords and own chords; deadline / idle-reactivate-time / smart-space options vary), defseq tables with a leader key (sldr or (sequence t mode)) in old-only / new-only / both (a third of them with sequence-always-on, whose time-out and input mode are the Kanata-level fields), the defvirtualkeys list (2-4 keys, random order = random index behind each name, random actions), dynamic-macro record / play keys (new files only) and the defcfg options sequence-timeout, sequence-input-mode, sequence-backtrack-modcancel, sequence-always-on, movemouse-smooth-diagonals, movemouse-inherit-accel-state, dynamic-macro-max-presses, dynamic-macro-replay-delay-behaviour, override-release-on-activation, concurrent-tap-hold, rapid-event-delay. After the request(s) the held keys are released with random gaps, the run settles, then a continuation of 2-5 pieces is typed: random typing, the chords of the case pressed together (half of the cases start with one, so zippychord is surely enabled), leader + key sequence (some defined as (lsft k1 k2) and typed with lsft held, some broken off), two accelerated movement keys pressed one after the other, record / stop / replay of a dynamic macro, virtual keys pressed / tapped / toggled by name as the TCP server does, movement keys held together, random keys pressed together. Failed reloads are compared, output by output and tick by tick, with a twin run whose reload keys are inert (the dictionary file on disk changes in both); successful ones with a fresh Kanata::new of the new file from the idle point on, plus the deferral / notification / first-layer / nothing-pressed oracles. SESSIONS (the indices above the single-episode cases; 640 quick / 9600 thorough): 2-3 reload episodes on one running instance, all files valid. The first episode is one of the 16 scenarios x 5 request kinds (one request; in 2/5 the reload key itself is held 1050-1450 ticks, so that the held custom action defers the reload until the one-idle-second fallback applies it, in a third of those another key is tapped during the hold; in 1/4 whatever the scenario holds is held 1100 / 1400 ticks after the request, with a key tapped in the middle of that wait when the scenario surely defers the reload). Its continuation is the typing before the next request: nothing, plain letters only (taps and overlapping holds of keys that type a plain letter in the file just installed, i.e. nothing kanata has to wait for), or the mixed continuation described above. Every later episode makes its pre-state on the file the previous one installed (idle, one or two plain-letter keys held, the lsft key held, random typing cut off anywhere), taps a random request kind (a third with the reload key held for more than a second), waits (a fifth for 1100 / 1400 ticks, possibly with a key tapped in the middle), releases what is held with random gaps, settles, and types its own continuation; the last one types the mixed continuation. Every episode is judged on its own: exactly one ConfigFileReload naming the file the request selects relative to the file active by then, not applied with an OS key down unless more than 1000 iterations passed since the last input / output, notification pair, first layer, only releases until the idle point, everything up at the idle point, continuation identical to a fresh instance of the file that episode installed. OS KEY REPEATS are a dimension of every continuation (single-episode cases, failed-reload cases and every episode of a session; a stream of their own, the rest of a case is what it was): every configuration (old and every file) has 2, 3 or 4 layers (old: 2/3/4 with weights 2:1:1, files 2:3:3, random actions on the additional layers) and maps the extra physical key j on its first layer to (layer-while-held L), L = the last layer half of the time, else any non-first layer; 3 of 5 mixed continuations get a directed piece at their start or end: [j down] key down (2 of 3 a key that types a plain letter in the installed file), [j down], 1-4 Repeat events for the key 1-33 ticks apart, a third with a second key held and repeated plus a stray repeat of the first, a quarter of the layer-held ones release j first and repeat once more, key up, a fifth with a Repeat after the release, j up; and 2 of 3 of all continuations get 1-3 Repeat events inside a quarter of the waits during which a key is physically held (4 of 5 for the key pressed last). Reloaded and fresh instance receive the same events; forwarded repeats are outputs of the compared traces (kind repeat, stamped with the tick at which the event arrived). KEY-EVENT DELIVERY is a dimension of every case: a third of the single-episode cases and three quarters of the sessions deliver every key event as a loop iteration of its own in the loop's order (can_block_update_idle_waiting, handle_input_event, handle_time_ticks), the others queue key events between two iterations. Non-trivial = case in which the request was made on an accepted old configuration; distinct = (outcome, scenario, request kinds, fault kind, number of files, number of reloads applied), for sessions (per episode: scenario, request kind, reload key held > 1 s; kind of typing between).".into()
     }
     fn assumptions(&self) -> Vec<String> {
         vec![
@@ -2223,6 +2520,7 @@ impl Check for C15Check {
             "sessions: one request per episode (which of two back-to-back requests wins is not decided by the statement and the later episodes must know the active file); all files valid and unchanged after the first request; no dynamic-macro keys (a macro recorded under one file would be replayed under the next; recorded macros are kept across reloads on purpose); the state the typing between two requests leaves behind (switched layer, caps-word, ...) is part of the next episode's pre-state, which is arbitrary anyway".into(),
             "a key that is tapped while a request is (expected to be) pending but is in fact typed after the reload was applied (the reload was not deferred because no OS key was down, e.g. an override had released it) was typed on the new file: that episode's output-after-reload and fresh-instance comparisons are skipped (counter episodes_with_key_typed_after_the_application:*), everything else is judged".into(),
             "kanata's own idle counter (pub field ticks_since_idle) is read right after an application only to count which reloads went through the one-idle-second fallback (floors); no oracle uses it".into(),
+            "OS key repeats are injected only into continuations (after the idle point that follows a reload, and after a failed reload in both twins), never before or while a request is pending: a Repeat event is an input event, so a key that the OS keeps repeating never lets the one-idle-second fallback start, and the statement does not say whether that is intended. Which key a repeat is forwarded as is not modelled (that is C14); reloaded and fresh instance must agree. Repeat events are also sent for keys that are not the one pressed last and shortly after a release (an OS does not do the former, the latter happens with a queue between OS and kanata); both instances see the same events. The layer that is active when a Repeat arrives is read from the fresh instance (layout.current_layer) only for the evidence counters".into(),
             "lrld-num is only generated with a number that names an existing file (the guide does not say what an out-of-range number does)".into(),
             "recorded dynamic macros and clipboard slots are kept across reloads on purpose and are not exercised".into(),
             "what the continuation reaches of a feature that differs between old and new file is reported by the evidence counters (zippy_pair:*, old_chord_typed_after_reload_*, sequence_typed_after_reload_*, virtual_key_operated_after_reload_*, reload_changes_option:*); chords, sequences and dictionaries of the old configuration are written in the letters the reloaded file types, so a table that survives the reload shows in the comparison with the fresh instance".into(),
@@ -2299,6 +2597,18 @@ impl Check for C15Check {
             ("reload_changes_option:movemouse-inherit-accel-state", 40),
             ("reload_changes_option:dynamic-macro-max-presses", 40),
             ("reload_changes_option:dynamic-macro-replay-delay-behaviour", 40),
+            // OS key repeats after a reload; files with different numbers of layers
+            ("os_repeat_events_in_continuations", 6000),
+            ("os_repeats_forwarded_by_fresh_instance", 4000),
+            ("os_repeats_forwarded_for_key_mapped_differently_before_the_reload", 3000),
+            ("os_repeats_forwarded_with_non_first_layer_active", 900),
+            ("os_repeats_with_a_layer_active_that_the_previous_configuration_does_not_have", 300),
+            ("continuation:directed_os_repeat_pieces", 500),
+            ("continuations_with_forwarded_os_repeat", 700),
+            ("session_later_continuations_with_forwarded_os_repeat", 250),
+            ("reload_into_file_with_more_layers", 400),
+            ("reload_into_file_with_fewer_layers", 200),
+            ("failed_reload:forwarded_os_repeats_compared_with_no_request_twin", 1500),
         ]
     }
     fn watchdog_s(&self, _ctx: &Ctx) -> u64 {
